@@ -77,6 +77,8 @@ pub fn build_scene(ctx: &Ctx, rng: &mut Rng, names: Vec<Vec<u8>>, links: bool) -
         use std::os::unix::ffi::OsStrExt;
         extra.push((c.clone(), observe_root(&c, &dir.join(std::ffi::OsStr::from_bytes(&c)))));
     }
+    // names that are not valid UTF-8 exist in the trees but cannot be spelled in an argument vector
+    let names: Vec<Vec<u8>> = names.into_iter().filter(|n| std::str::from_utf8(n).is_ok()).collect();
     Scene { dir, roots, names, extra }
 }
 
@@ -174,7 +176,10 @@ pub fn run_c03(ctx: &Ctx, sink: &mut Sink) {
     let mut rng = Rng::new(ctx.seed).fork(3);
     let scenes = if ctx.thorough { 1500 } else { 120 };
     for si in 0..scenes {
-        let sc = build_scene(ctx, &mut rng, simple_names(), si % 3 == 0);
+        // -sorted orders siblings byte-wise: names that are not valid UTF-8 sort differently once decoded lossily
+        let mut names = simple_names();
+        names.extend([b"\xa3x".to_vec(), b"\xc2\xa3y".to_vec(), b"\xff".to_vec(), b"caf\xe9".to_vec(), b"caf\xc3\xa9".to_vec(), b"\xe6\x97".to_vec()]);
+        let sc = build_scene(ctx, &mut rng, names, si % 3 == 0);
         for _ci in 0..(if ctx.thorough { 16 } else { 8 }) {
             let mut toks: Vec<String> = vec![];
             if rng.chance(1, 3) {
